@@ -106,8 +106,13 @@ def check_case(case):
                 require(any(l.v1 is v for l in v.links), "ensurelink-violated", f"vertex {v.i} is v1 of no link (count={count}, conn={case['conn']})")
         # order-sensitive: the universe's member order is part of "the result"
         sig = lambda U: [(v.i, [(l.v1.i, l.v2.i) for l in v.links]) for v in U.vertices]
+        # the caller does what it likes with the first result (here: one member leaves) before asking again
+        s1 = sig(u)
+        if vs:
+            u.remove_vertex(vs[0])
         u2 = run()
-        require(sig(u) == sig(u2), "not-reproducible", "same seed, different graph")
+        require(s1 == sig(u2), "not-reproducible", "same seed, different graph (the first result had been modified by the caller in between)")
+        require(u2 is not u and not ({id(x) for x in u2.vertices} & {id(x) for x in vs}), "returned-object-not-fresh", "a second call (same seed, same arguments) returned objects of the first call's graph instead of a new graph")
     finally:
         random.setstate(state)
     classes = [f"count<=5" if count <= 5 else "count>5", "default-connectivity" if case["conn"] is None else "explicit-connectivity"]
